@@ -180,6 +180,20 @@ func loadWorld(prop string, extraPkgs []string) (*World, error) {
 	for _, p := range pkgs {
 		walk(p.Types)
 	}
+	// package names that are ambiguous in this world get path-qualified struct keys
+	byName := map[string]map[string]bool{}
+	for path, p := range w.typesPkgs {
+		if byName[p.Name()] == nil {
+			byName[p.Name()] = map[string]bool{}
+		}
+		byName[p.Name()][path] = true
+	}
+	ambiguousPkgNames = map[string]bool{}
+	for n, paths := range byName {
+		if len(paths) > 1 {
+			ambiguousPkgNames[n] = true
+		}
+	}
 	// register all contracts (from every contract file: callee contracts of packages not loaded with
 	// syntax are usable too)
 	for _, f := range files {
